@@ -125,9 +125,29 @@ def run(ctx):
                     summary=f"foldfilter {' '.join(args)} cat does not reproduce line {k}: got {gl[k] if k < len(gl) else None!r} "
                             f"want {wl[k] if k < len(wl) else None!r} (status {st})")
                 break
+    import wrappers
+    data, pauses = wrappers.paced_corpus("foldfilter")
+    for args in (["-w", "30"], ["-w", "7", "-s"]):
+        st, out, err, trace = wrappers.run_traced(ctx, ["foldfilter"] + args, data, ["eager"], timeout=120, pauses=pauses)
+        ctx.count("foldfilter.paced", 1, [tuple(args)])
+        if st != 0 or out != data:
+            gl, wl = out.split(b"\n"), data.split(b"\n")
+            k = next((i for i, (p_, q_) in enumerate(zip(gl, wl)) if p_ != q_), min(len(gl), len(wl)))
+            pvlib.report_violation(ctx, "foldfilter-paced:" + " ".join(args), {"argv": ["foldfilter"] + args + ["python3", "harness/children/child.py", "eager"],
+                                   "stdin_hex": hx(data)[:400000], "stdin_stalls_at_byte_offsets": pauses, "status": st, "line": k,
+                                   "stderr": err.decode(errors="replace")[-300:]},
+                                   summary=f"foldfilter {' '.join(args)} with an identity child on {len(wl) - 1} lines, stdin stalling around the queue-page multiples: "
+                                           f"status {st}, {len(gl) - 1} lines out, first wrong line {k}")
+            break
 
 
 def replay(ctx, rp):
+    if "stdin_stalls_at_byte_offsets" in rp:
+        import wrappers
+        i = rp["argv"].index("python3")
+        st, out, err, trace = wrappers.run_traced(ctx, rp["argv"][:i], unhx(rp["stdin_hex"]), rp["argv"][i + 2:], timeout=120, pauses=rp["stdin_stalls_at_byte_offsets"])
+        print("status", st, "stdout bytes", len(out), err[-300:])
+        return
     if "ops" in rp:
         impl = os.path.join(ctx.bdir, "harness", "implfold")
         a = pvlib.run_lines(impl, rp["ops"], env=pvlib.san_env())
